@@ -3,14 +3,17 @@ import DashLive.Model.Csrf
 import DashLive.Driver.Util
 /-! Driver channels of C15.
 
-`authz <role> <kind> <flags> <guards>` → `<verdict> <lesser>`
-  role ∈ anonymous|user|media|admin; kind ∈ none|media|admin|self;
-  flags = 7 characters 0/1: sendsSession sendsJwt ajax targetExists targetIsSelf csrfPresent csrfOk;
+`authz <kind> <session> <token> <target> <flags> <guards>` → `<verdict> <allowed>`
+  kind ∈ none|media|admin|self; session, target ∈ nobody|guest|user|media|admin (identity of the
+  session cookie; account named in the URL, nobody = some other account);
+  token ∈ none | <ident> (owner of an access token) | <ident>:refresh;
+  flags = 4 characters 0/1: ajax targetExists csrfPresent csrfOk;
   guards = `-` or `,`-separated, in execution order:
     `login:<html>:<admin>:<perm>` `jwt:<refresh>:<optional>` `jwtlogin:<admin>:<perm>`
     `csrfdec:<hasNext>:<optional>` `csrfbody` `loader` `selforadmin:<jwt>` `spa` `other`
     (perm ∈ -|u|m|a; service / loader names do not influence a verdict and are not sent);
-  verdict = `pass` | `block` | `stop:<status>`; lesser = 0/1 (role below the documented one).
+  verdict = `pass` | `block` | `stop:<status>`; allowed = 0/1 (`mayChange`: the documentation lets the
+  holder of these identities change state of this kind).
 
 `csrf_seq <strict 0|1> <op;op;…>`, every string hex-encoded (`-` = empty string):
     `i:<service>:<cookie>:<origin>:<salt>:<sig>`  the implementation issued salt‖sig for these;
@@ -31,9 +34,17 @@ def parsePerm : String → Option (Option Perm)
   | "-" => some none | "u" => some (some .user) | "m" => some (some .media)
   | "a" => some (some .admin) | _ => none
 
-def parseRole : String → Option Role
-  | "anonymous" => some .anonymous | "user" => some .user | "media" => some .media
-  | "admin" => some .admin | _ => none
+def parseIdent : String → Option Ident
+  | "nobody" => some .nobody | "guest" => some .guest | "user" => some .user
+  | "media" => some .media | "admin" => some .admin | _ => none
+
+/-- (owner, isRefresh) -/
+def parseToken (s : String) : Option (Option Ident × Bool) :=
+  match s.splitOn ":" with
+  | ["none"] => some (none, false)
+  | [u] => do some (some (← parseIdent u), false)
+  | [u, "refresh"] => do some (some (← parseIdent u), true)
+  | _ => none
 
 def parseKind : String → Option Kind
   | "none" => some .none | "media" => some .media | "admin" => some .admin
@@ -52,27 +63,25 @@ def parseGuard (s : String) : Option Guard :=
   | ["other"] => some (.other "")
   | _ => none
 
-def parseFlags (s : String) : Option Request :=
-  match s.toList.map (fun c => parseBool (String.singleton c)) with
-  | [some a, some b, some c, some d, some e, some f, some g] =>
-    some { sendsSession := a, sendsJwt := b, ajax := c, targetExists := d, targetIsSelf := e,
-           csrfPresent := f, csrfOk := g }
-  | _ => none
-
 def showVerdict : Verdict → String
   | .pass => "pass"
   | .block => "block"
   | .stop s => s!"stop:{s}"
 
 def authz : List String → Option String
-  | [role, kind, flags, guards] => do
-    let ρ ← parseRole role
+  | [kind, session, token, target, flags, guards] => do
     let k ← parseKind kind
-    let r ← parseFlags flags
+    let s ← parseIdent session
+    let (t, rf) ← parseToken token
+    let e ← parseIdent target
+    let r : Request ← match flags.toList.map (fun c => parseBool (String.singleton c)) with
+      | [some a, some b, some c, some d] =>
+        some { session := s, token := t, tokenIsRefresh := rf, ajax := a, targetExists := b,
+               target := e, csrfPresent := c, csrfOk := d }
+      | _ => none
     let gs ← if guards == "-" then some [] else (guards.splitOn ",").mapM parseGuard
-    let v := evalChain gs ρ r
-    let l := lesser ρ (required k r)
-    some s!"{showVerdict v} {if l then 1 else 0}"
+    let v := evalChain gs r
+    some s!"{showVerdict v} {if mayChange k r then 1 else 0}"
   | _ => none
 
 /-- hex → characters (bytes are Latin-1 code points; all protocol strings are ASCII) -/
